@@ -24,9 +24,12 @@ def run(prog):
     te, cfg = fn.terms, fn.cfg
     out = []
     jl = None
-    for d in fn.debug:
-        if d["name"] == "j" and not d["place"]["proj"]:
-            jl = d["place"]["l"]
+    for cs in te.calls:   # the inner cursor is the loop-carried local handed to the removal (whatever it is called)
+        if cs.callee.name in ("swap_remove", "remove") and len(cs.args) == 2 and strip(cs.args[0]) == ("param", 2):
+            for x in mir.subterms(cs.args[1]):
+                if x[0] == "mu":
+                    jl = x[2]
+                    break
     jm = [("mu", h, l) for (h, l) in te.mu_init if l == jl]
     if jl is None or not jm:
         raise CheckerError("CM: inner cursor `j` not found as a loop-carried local")
